@@ -27,10 +27,10 @@ var c01Plan = []planEntry{
 func init() {
 	register(&Check{
 		ID:   "C01",
-		Rule: "every token sequence up to the stated length over each declared alphabet, and every member of the parametric families t^k / t1^k t2^k, is parsed through Parse (caller's buffer with sentinel-filled spare capacity) and through NewBlockParser+NextBlock (one full read); non-trivial = >=2 root blocks, or a NUL / CR in the input, or leading blank lines",
+		Rule: "every token sequence up to the stated length over each declared alphabet, and every member of the parametric families t^k / t1^k t2^k, is parsed through Parse (caller's buffer with sentinel-filled spare capacity) and through NewBlockParser+NextBlock (one full read; for inputs up to 64 bytes also one byte per read; for inputs up to 24 bytes also every single-cut read schedule); non-trivial = >=2 root blocks, or a NUL / CR in the input, or leading blank lines",
 		Assumptions: []string{
 			"line numbering reference: a line ending is LF, CRLF or a CR not followed by LF (written from the statement, not from lineCount)",
-			"read schedules other than one full read are C08's subject",
+			"equality of streaming and in-memory results under arbitrary read schedules and reader faults is C08's subject; here the tiling statement itself is checked on each streamed result",
 		},
 		Run: func(c *Ctx) {
 			c.forPlan(c01Plan, c01Driver)
@@ -102,24 +102,21 @@ func c01Driver(x *X, in []byte) {
 			}
 		}
 	}
-	// Streaming entry point, one full read.
-	p := cm.NewBlockParser(bytes.NewReader(clone(in)))
-	var sblocks []*cm.RootBlock
-	for {
-		b, err := p.NextBlock()
-		if err != nil {
-			if err != io.EOF {
-				x.Fail("stream-error", "stream", in, "NextBlock returned %v on a healthy reader", err)
+	// Streaming entry point: one full read, one byte per read, and (inputs up
+	// to 24 bytes) every schedule with a single cut. The statement is about the
+	// root blocks "returned by parsing"; it has to hold however the reader
+	// happens to deliver the bytes. (Equality with Parse is C08's subject.)
+	c01Stream(x, in, nil, "stream")
+	if len(in) >= 2 && len(in) <= 64 {
+		c01Stream(x, in, []int{1}, "stream/1-byte-reads")
+		x.Count("streamed_one_byte_reads")
+		if len(in) <= 24 {
+			for cut := 1; cut < len(in); cut++ {
+				c01Stream(x, in, []int{cut, len(in)}, "stream/cut")
+				x.Count("streamed_single_cut_schedules")
 			}
-			break
-		}
-		sblocks = append(sblocks, b)
-		if len(sblocks) > len(in)+2 {
-			x.Fail("stream-too-many-blocks", "stream", in, "more root blocks than input bytes")
-			break
 		}
 	}
-	c01Tiling(x, in, sblocks, "stream")
 
 	if len(blocks) >= 2 {
 		x.Count("inputs_ge2_roots")
@@ -149,6 +146,52 @@ func c01Driver(x *X, in []byte) {
 	}
 	x.Outcome(tree.Hash64(tree.Dump(blocks, nil, tree.Positions|tree.Source)) ^ tree.HashBytes(in))
 	x.Sample(q(in))
+}
+
+// chunkReader delivers its data in reads of the given sizes (the last size
+// repeats), never more than the caller's buffer holds.
+type chunkReader struct {
+	data  []byte
+	sizes []int
+	k     int
+}
+
+func (r *chunkReader) Read(p []byte) (int, error) {
+	if len(r.data) == 0 {
+		return 0, io.EOF
+	}
+	n := len(r.data)
+	if len(r.sizes) > 0 {
+		n = r.sizes[min(r.k, len(r.sizes)-1)]
+		r.k++
+	}
+	n = min(n, len(r.data), len(p))
+	copy(p, r.data[:n])
+	r.data = r.data[n:]
+	return n, nil
+}
+
+func c01Stream(x *X, in []byte, sizes []int, cfg string) {
+	p := cm.NewBlockParser(&chunkReader{data: clone(in), sizes: sizes})
+	if len(sizes) > 0 {
+		cfg = fmt.Sprintf("%s%v", cfg, sizes)
+	}
+	var sblocks []*cm.RootBlock
+	for {
+		b, err := p.NextBlock()
+		if err != nil {
+			if err != io.EOF {
+				x.Fail("stream-error", cfg, in, "NextBlock returned %v on a healthy reader", err)
+			}
+			break
+		}
+		sblocks = append(sblocks, b)
+		if len(sblocks) > len(in)+2 {
+			x.Fail("stream-too-many-blocks", cfg, in, "more root blocks than input bytes")
+			break
+		}
+	}
+	c01Tiling(x, in, sblocks, cfg)
 }
 
 func c01Tiling(x *X, in []byte, blocks []*cm.RootBlock, cfg string) {
